@@ -16,6 +16,7 @@ def run(facts, tier):
         ("early stops", T.early_breaks, 5, "ordered-only shortcuts guarded by the right input"),
         ("theta writes", T.theta_writes, 5, "theta monotone"),
         ("duplicates/emptiness", T.emptiness_and_duplicates, 3, "insert only after a failed find (Theta and Tuple update paths)"),
+        ("tautologies", lambda fa: generic_lints.tautologies(fa, ('theta/', 'tuple/')), 2, "no comparison / assignment / min-max with two identical operands, no if-else with identical arms"),
         ("duplicate operands", lambda fa: generic_lints.duplicate_conjuncts(fa, ('theta/', 'tuple/')), 2, "no logical chain tests the same operand twice (copy-paste of the wrong peer)"),
         ("overload twins", lambda fa: twins.overload_twins(fa, ('tuple/', 'theta/')), 1, "const& and && overloads of one operation have identical bodies modulo std::move/forward"),
     ):
